@@ -14,8 +14,12 @@ commit and is shared with C02. This file adds the flagged family on top of it wi
   Off = the candidate repair: the selector branch is skipped (`len(newData) > 0`).
 * `inplaceAltersFlag` (C04, clause 1b) as written the in-place paths of a remote write (`copyToSelectedData`,
   `copyToAllData`, `RemoveElementFromItem` under `deleteFilteredData`) copy resp. clear the `writecheck` field like
-  any other. Off = the candidate repair `patches/C04-flag-altered-candidate.patch`: on a remote write the flag the
+  any other. Off = the candidate repair `fixes/c04/01-remote-write-keeps-changeability-flag.patch`: on a remote write the flag the
   item had is put back.
+
+* `deleteStrict` (C04b, delete path) as written `deleteFilteredData` reports failure of a remote delete as soon as
+  ANY stored item is not writable. Off = the repair `fixes/c04/02-…`: failure only for an unwritable item the
+  filter addresses (no selector: every item; else the items the selector matches); other unwritable items are kept.
 
 `updateListF_asWritten` proves that the member with all flags on IS `Spine.updateList`, so every theorem about
 `updateList` is a theorem about the member the driver runs against the unchanged tree.
@@ -27,6 +31,7 @@ structure UCfg where
   selNilPanics : Bool := true
   emptySelPanics : Bool := true
   inplaceAltersFlag : Bool := true
+  deleteStrict : Bool := true
 deriving Repr, DecidableEq, Inhabited
 
 def UCfg.asWritten : UCfg := {}
@@ -133,9 +138,17 @@ def deleteFilteredF.go (c : UCfg) (sh : Shape) (remote : Bool) (f : Filter) :
   | [] => .ok ([], [], true)
   | x :: xs =>
     if !writeAllowed sh x && remote then
-      match deleteFilteredF.go c sh remote f xs with
-      | .panic s => .panic s
-      | .ok (ip, out, _) => .ok (x :: ip, out, false)
+      if c.deleteStrict then
+        match deleteFilteredF.go c sh remote f xs with
+        | .panic s => .panic s
+        | .ok (ip, out, _) => .ok (x :: ip, out, false)
+      else
+        match hitOf c sh f x with
+        | .panic s => .panic s
+        | .ok hit =>
+          match deleteFilteredF.go c sh remote f xs with
+          | .panic s => .panic s
+          | .ok (ip, out, ok) => .ok (x :: ip, x :: out, ok && !hit)
     else
       match hitOf c sh f x with
       | .panic s => .panic s
@@ -273,8 +286,9 @@ theorem deleteFilteredF_go_asWritten (sh : Shape) (remote : Bool) (f : Filter) (
   induction ex with
   | nil => rfl
   | cons x xs ih =>
+    have hds : UCfg.asWritten.deleteStrict = true := rfl
     simp only [deleteFilteredF.go, deleteFiltered.go, hitOf, delItem, delKeep, selectorMatchF_asWritten,
-      keepsFlag_asWritten, Bool.false_eq_true, if_false, ih]
+      keepsFlag_asWritten, Bool.false_eq_true, if_false, hds, if_true, ih]
     split
     · cases deleteFiltered.go sh remote f xs with
       | panic s => rfl
